@@ -853,6 +853,12 @@ def _renderer(repo, rep):
     n += utils_rules(repo, rep, 'C04.i')
     rep.floor('C04.i', n, 8)
 
+    # ---------------------------------------------------------------- C04.m the document is read-only for the layout
+    # (imported from C19.d): a document that remembers something from one visit - an evaluated contextual part, a consumed
+    # child list - is laid out differently the second time it is visited (another indentation, another width)
+    from . import shared_state as SS
+    rep.floor('C04.m', SS.doc_object_stores(repo, rep, 'C04.m'), 6)
+
 
 def _renderer_facts(rep, m, f, rule, allow_extra_writes):
     """facts shared by the plain and the coloured renderer (C04.i / C16.f); returns count"""
